@@ -87,6 +87,19 @@ func (c *genericConn) handleUnidirectionalStream(st *stream, h streamHandler) {
 			message: streamType(stype).String() + " stream closed",
 		}
 	}
+	if stype == streamTypeControl {
+		// The control stream is critical: an error on it (for example a frame
+		// cut short by the end of the stream) cannot be confined to the stream,
+		// which the peer could not even see being reset.
+		switch e := err.(type) {
+		case *streamError:
+			err = &connectionError{code: e.code, message: e.message}
+		case http3Error:
+			if e != errH3NoError {
+				err = &connectionError{code: e, message: "error on control stream"}
+			}
+		}
+	}
 	c.handleStreamError(st, h, err)
 }
 
